@@ -290,6 +290,24 @@ def pct(x, y): return x % y
 def meth(x, name, args, kwargs): return getattr(x, name)(*args, **kwargs)
 def meth_list(x, name): return list(getattr(x, name)())
 def callfn(f, args, kwargs): return f(*args, **kwargs)
+def persist(x, u):
+    # values derived from x and u one after the other; all are looked at only at the end,
+    # so that a later operation that writes into storage shared with an earlier result shows
+    a = x[:2]
+    b = a + u
+    c = a + u[:1]
+    d = x[1:]
+    e = d + u
+    f = x + u
+    g = f[:len(x)] + u
+    h = x * 1
+    i = h + u
+    j = (x + u)[::2]
+    k = j + u
+    m = j + x
+    n = x[:0] + u
+    o = n + x
+    return [x, u, a, b, c, d, e, f, g, h, i, j, k, m, n, o]
 def k_neg(x): return -x
 def k_first(t): return t[0]
 `
@@ -380,6 +398,8 @@ func (h *helpers) execOp(op string, pt []any) (res string, errText string) {
 		v, err = h.call("add", h.toValue(pt[0]), h.toValue(pt[1]))
 	case "repeat":
 		v, err = h.call("mul", h.toValue(pt[0]), h.toValue(pt[1]))
+	case "persist":
+		v, err = h.call("persist", h.toValue(pt[0]), h.toValue(pt[1]))
 	default:
 		fw.Fatal("c13: unknown op %q", op)
 	}
